@@ -674,7 +674,7 @@ class C19(Prop):
     pid = "C19"
     rule = ("random construction programs (<=12 statements: HJob/Sequence/Scheduler/PureScheduler constructors with "
             "required= and scheduler=, requires with and without remove=True, Sequence.append incl. s.append(s) and "
-            "no-op appends, Sequence.requires, add, update, remove; argument terms nested to depth <=3 over lists, "
+            "no-op appends, Sequence.requires, add, update, remove; argument terms nested to depth <=3 (rarely 4) over lists, "
             "tuples and sets with None placeholders, empty sequences, repeated jobs; removes aimed at present, absent, "
             "duplicated and self requirements) plus a systematic family (every small argument term through requires "
             "add/remove and through required= of each constructor); objects are built by the real constructors, job/"
